@@ -223,7 +223,7 @@ func TestC06_pawns(t *testing.T) {
 			}
 		}
 	}
-	runRapid(t, "C06/pawns", 20000, func(t *rapid.T) pawnCase {
+	runRapid(t, "C06/pawns", 60000, func(t *rapid.T) pawnCase {
 		return pawnCase{White: rapid.Bool().Draw(t, "white"), Pawns: rapid.Uint64().Draw(t, "a") & rapid.Uint64().Draw(t, "b")}
 	}, func(c pawnCase) error {
 		stats.Case("C06/pawns", stats.FP(c.White, c.Pawns), true, "pawn-set")
@@ -366,7 +366,7 @@ var checkC06Derived = def("C06/derived", func(gc gen.GameCase) error {
 })
 
 func TestC06_derived(t *testing.T) {
-	runRapid(t, "C06/derived", 40000, func(t *rapid.T) gen.GameCase {
+	runRapid(t, "C06/derived", 120000, func(t *rapid.T) gen.GameCase {
 		switch rapid.IntRange(0, 5).Draw(t, "synth") {
 		case 0, 1:
 			gc, _ := gen.Play(t, gen.Synth(t), 4, gen.DrawPolicy(t))
